@@ -450,7 +450,7 @@ def bind_cases(ctx, n):
 
     rng = ctx.rng
     cases = []
-    shapes = ["host:port", "host", "v6:port", "unix", "fd", "fd-bad", "odd"]
+    shapes = ["host:port", "host", "v6:port", "unix", "fd", "fd-bad", "odd", "v6-bare"]
     for idx in range(n):
         shape = shapes[idx % len(shapes)] if idx < 3 * len(shapes) else rng.choice(shapes)
         port = rng.choice([0, 1, 80, 443, 8000, 8443, 65535, rng.randint(0, 65535)])
@@ -467,6 +467,11 @@ def bind_cases(ctx, n):
             h = rng.choice(V6)
             s = f"[{h}]:{port}"
             intended = ["inet", True, h, port]
+        elif shape == "v6-bare":
+            # a bare host that is an IPv6 address, in brackets: the default port, like any other bare host (finding F63)
+            h = rng.choice(V6)
+            s = f"[{h}]"
+            intended = ["inet", True, h, 8000]
         elif shape == "unix":
             p = rng.choice(["/tmp/nonexistent-verif.sock", "rel/path.sock", "/a:b/c", "", "/x[1]"])
             s = "unix:" + p
@@ -509,8 +514,8 @@ def bind_cases(ctx, n):
         case = {"kind": "bind", "bind": s, "shape": shape, "obs": obs}
         fails = []
         if intended is not None and obs != intended:
-            fails.append({"case": case, "what": f"bind {s!r} gave {obs}, intended {intended}",
-                          "signature": "bind:" + shape})
+            sig = "bind:" + shape
+            fails.append({"case": case, "what": f"bind {s!r} gave {obs}, intended {intended}", "signature": sig})
         inp = C.ctuple("4%N", C.cstr(s), "(@nil occ)", "(@nil (string * pyval))", "(@nil string)")
         cases.append((inp, C.V(obs), case, fails))
     return cases
